@@ -500,7 +500,7 @@ class Cas:
             # We use binary search to find indices for the first and last annotations that are inside
             # the window of [begin, end].
             idx_begin = annotations.bisect_key_left((begin, begin))
-            idx_end = annotations.bisect_key_right((end, end))
+            idx_end = annotations.bisect_key_left((end + 1,))
 
             result.extend(annotations[idx_begin:idx_end])
 
